@@ -116,8 +116,22 @@ def handleTbl (args : List String) : Verdict :=
   | some (v, []) => v
   | _ => { agree := false, msg := "bad-line", tag := "bad" }
 
+/-- large values: the harness compared bit for bit; the clause is "reading the same name from a fresh handle returns a bit-identical
+    value" (after an overwrite: the value written last) -/
+def handleBig (args : List String) : Verdict :=
+  match args with
+  | [kind, rows, cols, _path, pre, w1, w2, rs, nback, mism, firstbad] =>
+    let ok := w1 == "ok" && (w2 == "ok" || w2 == "-") && rs == "ok" && mism == "0"
+    let n := (rows.toNat?.getD 0) * (cols.toNat?.getD 0)
+    let cls := if n < 8191 then "below-8191" else if n ≤ 32768 then "8191-32768" else "above-32768"
+    let seqS := if pre == "0" then "written once" else if pre == "1" then "small then large" else "large then small"
+    let msg := s!"CPT-BIG {kind} {rows}x{cols} ({seqS}): first write {w1}, second write {w2}, read {rs}, {nback} elements back, {mism} differ (first at {firstbad})"
+    ({ agree := ok, propOk := ok, msg := if ok then "" else msg, tag := s!"big:{kind}:{cls}:pre{pre}" } : Verdict)
+  | _ => { agree := false, msg := "bad-line big", tag := "bad" }
+
 def handle (args : List String) : Verdict :=
   match args with
+  | "big" :: rest => handleBig rest
   | "seq" :: rest => handleSeq rest
   | "tbl" :: rest => handleTbl rest
   | _ => { agree := false, msg := "bad-line", tag := "bad" }
